@@ -24,6 +24,12 @@ CHECKS["C14"] = dict(
   technique="Lean 4 proof over executable model + differential correspondence (go test -overlay)",
   design="§10 C14")
 
+CHECKS["C18"] = dict(
+  text="Lean theorems (unbounded: all worlds, sniffed strings, destinations, event histories): the decision table of ChooseDialTarget per dial_mode (ip/no name/built-in => destination IP:port; domain => name iff genuine; domain+ => name, never re-route; domain++ => name and the flow is routed again with that name), normalisation and well-formedness of every target (byte-level models of SplitHostPort/JoinHostPort/ParseAddr/AddrPort.String), and 'genuine' = resolved through dae within its original TTL or verified by a positive probe (induction over cache event histories). Tied to /repo by differential runs of the real ChooseDialTarget/routeDial/DnsController knowledge functions under virtual time.",
+  note="Trusted: Lean kernel + standard axioms; byte-level library models (net.SplitHostPort, JoinHostPort, netip.ParseAddr, strconv.Itoa, dns.CanonicalName) tied by differential testing only; realDomainSet Bloom filter modelled as an exact set; Route is an oracle for the sniffed name; comparison at quiescence (no concurrency of the caches).",
+  technique="Lean 4 proof over executable model + differential correspondence (go test -overlay, synctest virtual time)",
+  design="§10 C18")
+
 def main():
     checks = []
     for pid in ALL:
